@@ -426,10 +426,11 @@ def selectEngine (q : QSpec) (env : Env) (cpu : Cpu) : Engine :=
 /-! ## `soxr_create` -/
 
 /-- `io_ratio` as `soxr_create` computes it from the two rates: a negative rate gives −1 (each rate, not only the
-    quotient, must be positive) -/
+    quotient, must be positive); so does a quotient of two non-zero rates that underflows to 0 (F43: 0 means "rates not
+    given yet" and would leave an object without engines behind a successful create) -/
 def ioRatioOf (ir orr : Dbl) : Dbl :=
   if lt ir zero || lt orr zero then minusOne
-  else if ne orr zero then (if ne ir zero then div ir orr else minusOne)
+  else if ne orr zero then (if ne ir zero then (if ne (div ir orr) zero then div ir orr else minusOne) else minusOne)
   else (if ne ir zero then minusOne else zero)
 
 /-- backwards compatibility with the original API: band edges given in percent -/
